@@ -183,6 +183,12 @@ var c11probes = []string{
 	"global L\nparam p\nf := func(n) {\n  r := 0\n  for i := 0; i < n; i++ {\n    if i % 2 == 0 {\n      continue\n    }\n    if i > 6 {\n      break\n    }\n    r += i\n  }\n  return r > 5 ? r : -r\n}\nreturn [f(p), f(4), f(10)]",
 	"global L\nparam p\nf := func(n) {\n  return [1, 2][n]\n}\ng := func(n) {\n  if n > 0 {\n    return f(n + 1)\n  }\n  return f(0)\n}\nreturn g(p)",
 	"global L\nparam p\nm := import(\"mod0\")\nreturn m.bump(p) + m.get()",
+	// a call of a throwing script function whose result feeds a jump directly (condition of if / for / ?: , operand of
+	// && / ||), written over several lines: the CALLER's frame position is looked up at the jump-class instruction
+	"global L\nparam p\ncheck := func(v) {\n  if v > 0 {\n    throw error(\"bad \" + v)\n  }\n  return v == 0\n}\nn := 5\nif p < -100 ||\n  n > 100 ||\n  check(p) {\n  L(\"then\")\n}\nreturn n",
+	"global L\nparam p\ncheck := func(v) {\n  if v > 0 {\n    throw error(\"bad\")\n  }\n  return false\n}\nfor i := 0; i < 3 &&\n  !check(p + i - 1); i++ {\n  L(i)\n}\nreturn 1",
+	"global L\nparam p\ncheck := func(v) {\n  return [1, 2][v + 1] > 1\n}\nr := check(p) ?\n  \"yes\" :\n  \"no\"\ns := check(p - 1) &&\n  check(p)\nreturn [r, s]",
+	"global L\nparam p\nf := func(v) {\n  try {\n    return [1][v]\n  } finally {\n    L(\"fin\")\n  }\n}\ng := func(v) {\n  if f(v) > 0 || f(v + 1) > 0 {\n    return 1\n  }\n  return 0\n}\nreturn g(p)",
 	// functions with identical bodies (identical instruction bytes) on different lines, each with jumps; the error is
 	// raised in the first / the second / the third of them, or in a twin that lives in a module
 	"global L\nparam p\na := func(n) {\n  if n > 0 {\n    return [1, 2][n + 5]\n  }\n  return n\n}\n\nb := func(n) {\n  if n > 0 {\n    return [1, 2][n + 5]\n  }\n  return n\n}\n\n\nc := func(n) {\n  if n > 0 {\n    return [1, 2][n + 5]\n  }\n  return n\n}\nreturn [a(p - 7), b(p - 1), c(p)]",
